@@ -407,6 +407,37 @@ def oracle_interacting(case, rec):
                 maxdiff(bb_, exp),
                 np.array2string(bb_.ravel()[:8], precision=6),
                 np.array2string(np.asarray(exp).ravel()[:8], precision=6)))
+    # subnetwork(): the induced network in the order of the node list - also
+    # when a node is listed twice (the list then has the same entries in
+    # both numberings, in the same order)
+    for tag, la in (("", l1), ("_repeated_node", l1 + l1[:1]),
+                    ("_repeated_first", l1[-1:] + l1)):
+        lb = [int(inv[u]) for u in la]
+        try:
+            sa = net.subnetwork(list(la))
+            ea = None
+        except Exception as e:  # pylint: disable=broad-except
+            ea = e
+        try:
+            sb = net2.subnetwork(lb)
+            eb = None
+        except Exception as e:  # pylint: disable=broad-except
+            eb = e
+        name = "subnetwork" + tag + ("_dir" if g["directed"] else "")
+        if ea is not None or eb is not None:
+            if type(ea) is not type(eb):
+                rec.fail(name + "_raises_differ", "original: %r relabelled: "
+                         "%r" % (ea, eb))
+            continue
+        for what, fa, fb in (
+                ("adjacency", sa.adjacency, sb.adjacency),
+                ("node_weights", sa.node_weights, sb.node_weights),
+                ("degree", sa.degree(), sb.degree())):
+            if not allclose(np.asarray(fb, dtype=float),
+                            np.asarray(fa, dtype=float), rtol=1e-12):
+                rec.fail(name + "_" + what, "relabelled=%s original=%s" % (
+                    np.array2string(np.asarray(fb, dtype=float).ravel()[:8]),
+                    np.array2string(np.asarray(fa, dtype=float).ravel()[:8])))
 
 
 # --------------------------------------------------- Geo / Spatial / Res
